@@ -1274,6 +1274,61 @@ func c18CrossValue(c *bx.Ctx) {
 			})
 			return out
 		}
+		// cache pressure: many distinct values of one shape go through the codec, then the first ones again;
+		// their answers must be those of the first time (a bounded cache, an eviction slip, interning)
+		if c.MineBlock(0) && len(bs) > 0 {
+			t0 := time.Now()
+			shape := bs[0]
+			for i, b := range bs { // the largest of the picked shapes that still encodes to at most 2 KiB
+				if enc[i] != nil && len(enc[i]) <= 2048 && len(enc[i]) >= len(enc[0]) {
+					shape = b
+				}
+			}
+			nVar := 1500
+			if c.Thorough() {
+				nVar = 5000
+			}
+			type first struct{ wire, dump, str string }
+			var firsts []first
+			one := func(n int) (first, bool) {
+				p := shape.Make()
+				ref.Reseed(p, n)
+				var f first
+				ok := false
+				_, _ = bx.Guard(func() {
+					w, err := p.Marshal()
+					if err != nil {
+						return
+					}
+					f.wire = fmt.Sprintf("%x", w)
+					f.str = fmt.Sprintf("%+v", p)
+					if e != nil {
+						q, derr := e.Fn(append([]byte{}, w...))
+						f.dump = fmt.Sprintf("%s|%v", ref.Dump(q), derr)
+					}
+					ok = true
+				})
+				return f, ok
+			}
+			for n := 0; n < nVar; n++ {
+				f, ok := one(n)
+				c.T(3)
+				if n < 64 && ok {
+					firsts = append(firsts, f)
+				}
+			}
+			for n := 0; n < len(firsts); n++ {
+				f, ok := one(n)
+				if ok && f != firsts[n] {
+					c.Report(keyJoin("C18/cross-value", typ, "answer-changes-after-many-other-values"), fmt.Sprintf("Marshal / String / decode of a value answer differently after %d other values of the type went through the codec", nVar),
+						bx.Replay{Entry: "cache-pressure", Value: typ + "{" + shape.Shape + "}", Ops: fmt.Sprintf("variant %d, then variants up to %d, then variant %d again", n, nVar-1, n), Expected: bx.ShortStr(firsts[n].dump + " " + firsts[n].wire), Observed: bx.ShortStr(f.dump + " " + f.wire)})
+					break
+				}
+			}
+			c.Add(int64(nVar))
+			_ = t0
+			c.Note(fmt.Sprintf("cache-pressure %s{%s}: %d variants", typ, shape.Shape, nVar))
+		}
 		for bi, B := range bs {
 			if !c.MineBlock(0) {
 				continue
@@ -1294,6 +1349,18 @@ func c18CrossValue(c *bx.Ctx) {
 				if err1 == nil && err2 == nil {
 					if sh := ref.SharedMemory(q1, q2, in1, in2); sh != "" {
 						c.Report(keyJoin("C18/cross-value", typ, "decoded-values-share-memory"), "two packets decoded from different buffers share memory: "+sh, rp("decode twice from two buffers", "disjoint values", sh))
+					}
+					// byte slices of a decoded packet may alias the input (documented); its strings are
+					// immutable values and must not change when the caller reuses the buffer
+					if qp, ok := q1.(rtcp.Packet); ok {
+						before := ref.StringLeaves(qp)
+						for i := range in1 {
+							in1[i] = 0xA5
+						}
+						after := ref.StringLeaves(qp)
+						if fmt.Sprint(before) != fmt.Sprint(after) {
+							c.Report(keyJoin("C18/cross-value", typ, "decoded-string-changes-with-input-buffer"), "a string of a decoded packet changes when the input buffer is overwritten afterwards (a string built over the caller's memory)", rp("decode, then overwrite the input buffer", fmt.Sprint(before), fmt.Sprint(after)))
+						}
 					}
 				}
 			}
